@@ -8,6 +8,14 @@ private def showOpt : Option Int → String
   | none => "none"
   | some x => s!"some {x}"
 
+/-- split a token list at the atom `/` -/
+private def splitSlash : List Sexp → List (List Sexp)
+  | [] => [[]]
+  | .atom "/" :: rest => [] :: splitSlash rest
+  | x :: rest => match splitSlash rest with
+    | [] => [[x]]
+    | g :: gs => (x :: g) :: gs
+
 /-- `agg <name> args…` — one line in, one line out -/
 def handleAgg : List Sexp → Option String
   | .atom "min" :: vs => do some (showOpt (aggMin (← ints vs)))
@@ -25,6 +33,12 @@ def handleAgg : List Sexp → Option String
       some (toString (aggCount ⟨← n.asNat?, ← lo.asNat?, hi'⟩))
   | .atom "percentile" :: pn :: pd :: vs => do
       some (showOpt (aggPercentile (← pn.asNat?) (← pd.asNat?) (← ints vs)))
+  -- one aggregator value applied to several groups in turn: the model's aggregator is a function of the group alone
+  | .atom "percentile_seq" :: pn :: pd :: vs => do
+      let pn ← pn.asNat?
+      let pd ← pd.asNat?
+      let outs ← (splitSlash vs).mapM fun g => do some (showOpt (aggPercentile pn pd (← ints g)))
+      some (" ; ".intercalate outs)
   | _ => none
 
 end AscentVerif.Driver
